@@ -463,5 +463,5 @@ fn debug_assert_nones(ptr: NonNull<CcBox<()>>) {
 }
 
 #[cfg(kani)]
-#[path = "/verif/kani/lists_proofs.rs"]
-pub(crate) mod verif_proofs; // verification hook (H2): specs and contract harnesses live in /verif
+#[allow(dead_code, unused_imports, unused_variables, unused_macros, static_mut_refs)]
+pub(crate) mod verif_proofs { include!(concat!(env!("VERIF_KANI_DIR"), "/lists_proofs.rs")); } // verification hook (H2): specs and contract harnesses live in /verif
